@@ -3,7 +3,9 @@ import Gaftools.Props.TieA3
 #print axioms Gaftools.TieA.allAreAlive_gen
 #print axioms Gaftools.TieA.allExited_gen
 #print axioms Gaftools.TieA.oneFailed_gen
-#print axioms Gaftools.TieA.pCheck_genMain
-#print axioms Gaftools.TieA.pCheck_genLeft
+#print axioms Gaftools.TieA.handlerMain_eq
+#print axioms Gaftools.TieA.handlerLeft_eq
 #print axioms Gaftools.TieA.receive_genMain
 #print axioms Gaftools.TieA.receive_genLeft
+#print axioms Gaftools.TieA.evalPred_gen
+#print axioms Gaftools.TieA.step_genMain
